@@ -138,6 +138,10 @@ type c14 struct {
 	leases []*mLease
 	prov   ptypes.Provider
 	faults int
+	// shutdown: the provider was told to stop in the middle of the history; from then on only the safety
+	// clauses are judged (what must still happen after a close is no longer the running provider's job)
+	shutdown    bool
+	mayShutdown bool // per-run knob: only some histories contain a shutdown
 }
 
 func (x *c14) manifestFor(l *mLease, version int) (*manifest.Manifest, *manifest.Group) {
@@ -192,6 +196,7 @@ func runC14(r *core.Run) *core.Violation {
 	x := &c14{r: r, s: NewSched(r)}
 	rand.Seed(1) // jitter of the health-check timers (cluster/monitor.go) is pinned
 	x.faults = r.Weighted([]int{3, 3, 2, 1}, "knob.faults")
+	x.mayShutdown = r.Bool(25, "knob.shutdown-mid-history")
 	nLeases := 1 + r.Choose(2, "knob.leases")
 	steps := 10 + r.Choose(35, "knob.steps")
 	prov := testAddr(1)
@@ -318,6 +323,30 @@ func (x *c14) step() *core.Violation {
 	}
 	var st []stim
 	pend := x.s.Pending()
+	if x.mayShutdown && !x.shutdown {
+		busy := ""
+		for _, c := range pend {
+			if c.Method == "Cluster.Deploy" || c.Method == "Cluster.TeardownLease" {
+				busy = c.Method
+			}
+		}
+		w := 1
+		if busy != "" {
+			w = 2
+		}
+		st = append(st, stim{w, func() {
+			x.shutdown = true
+			go x.svc.Close()
+			r.Ops++
+			r.Mutating++
+			r.Count("probe:shutdown-mid-history")
+			if busy != "" {
+				r.Count("probe:shutdown-during-" + busy)
+			}
+			r.Logf("step %d: provider shutdown requested (in flight: %q)", x.s.Step, busy)
+			r.Abstract("shutdown")
+		}})
+	}
 	for _, c := range pend {
 		c := c
 		w := 10
@@ -349,6 +378,9 @@ func (x *c14) step() *core.Violation {
 	}
 	for _, l := range x.leases {
 		l := l
+		if x.shutdown {
+			break // a stopping provider is sent nothing more; its cluster calls still complete or fail
+		}
 		if l.closedAt != 0 {
 			// the chain and the tenant do not coordinate with the provider: a late manifest or a repeated
 			// lease-closed signal for a lease that is already being torn down must change nothing
@@ -540,6 +572,26 @@ func (x *c14) obligations(final bool) (pending string, v *core.Violation) {
 
 func (x *c14) finish() *core.Violation {
 	r := x.r
+	if x.shutdown {
+		// the provider is stopping: let every cluster call return, judge the safety clauses only
+		for i := 0; i < 200; i++ {
+			x.s.Settle()
+			x.s.Tick()
+			if v := x.checkSafety(); v != nil {
+				return v
+			}
+			p := x.s.Pending()
+			if len(p) == 0 && isDone(x.svc.Done()) {
+				break
+			}
+			for _, c := range p {
+				x.s.Complete(c, nil)
+			}
+			time.Sleep(2 * time.Second)
+		}
+		x.s.Settle()
+		return x.checkSafety()
+	}
 	r.Logf("final phase: drain")
 	// fair drain: every parked call completes successfully, the clock advances past every retry
 	budget := 400
